@@ -16,7 +16,7 @@ pub fn def() -> PropDef {
         run_unit,
         replay,
         required_probes: &["SetScale_UpU64", "SetScale_UpBig", "TenPow_Lt20", "TenPow_Lt590", "TenPow_Recursive"],
-        rule: "seeded pairs (a, b != 0) of 1..2000 digits with scale gaps 0..10^4 in both directions (19, 20, 255..257, 589..591 included), both signs, |a| < = > |b|, a an exact multiple of b, value-equal representations, equal digits at different scales; each pair through the 4 ownership forms and %=, judged against the aligned truncated integer remainder: exact value, |r| < |b|, r = 0 or sign(r) = sign(a), r(a,b) = r(a,-b), a = b*trunc(a/b) + r in the model, all five forms equal; zero divisors (any scale, any numerator including zero and operands much shorter than the scale gap) must panic in all five forms. distinct = distinct (a, b); non-trivial = both non-zero and the model remainder is non-zero",
+        rule: "exhaustive small scope: every pair na*10^-sa, nb*10^-sb with |na| <= 150, 1 <= |nb| <= 60, scales 0..2; then seeded pairs (a, b != 0) of 1..2000 digits with scale gaps 0..10^4 in both directions (19, 20, 255..257, 589..591 included), both signs, |a| < = > |b|, a an exact multiple of b, value-equal representations, equal digits at different scales; each pair through the 4 ownership forms and %=, judged against the aligned truncated integer remainder: exact value, |r| < |b|, r = 0 or sign(r) = sign(a), r(a,b) = r(a,-b), a = b*trunc(a/b) + r in the model, all five forms equal; zero divisors (any scale, any numerator including zero and operands much shorter than the scale gap) must panic in all five forms. distinct = distinct (a, b); non-trivial = both non-zero and the model remainder is non-zero",
     }
 }
 
@@ -24,11 +24,13 @@ fn plan(tier: Tier) -> Vec<Unit> {
     match tier {
         Tier::Quick => {
             let mut v = crate::util::split_budget("pairs", 500_000, 5_000);
+            v.extend(crate::util::split_budget("small", 301, 7));
             v.extend(crate::util::split_budget("zero", 20_000, 1_000));
             v
         }
         Tier::Thorough => {
             let mut v = crate::util::split_budget("pairs", 60_000_000, 20_000);
+            v.extend(crate::util::split_budget("small", 301, 7));
             v.extend(crate::util::split_budget("zero", 1_000_000, 5_000));
             v
         }
@@ -81,6 +83,23 @@ fn run_unit(unit: &Unit, r: &mut Rng, ctx: &mut Ctx) {
                 let (a, b) = gen_pair(r, unit.start + i);
                 let case = Case::new("pair").push(a.tok()).push(b.tok());
                 check_case(&case, ctx);
+            }
+        }
+        "small" => {
+            // exhaustive: a = na*10^-sa, b = nb*10^-sb with |na| <= 150, 1 <= |nb| <= 60, sa, sb in 0..=2
+            for idx in unit.start..unit.start + unit.count {
+                let na = idx as i64 - 150;
+                for nb in (-60i64..=60).filter(|x| *x != 0) {
+                    for sa in 0i64..=2 {
+                        for sb in 0i64..=2 {
+                            let case = Case::new("pair").push(Dec::new(BigInt::from(na), sa).tok()).push(Dec::new(BigInt::from(nb), sb).tok());
+                            check_case(&case, ctx);
+                        }
+                    }
+                }
+            }
+            if unit.start == 0 {
+                ctx.exhaustive_notes.push("C09 small scope: every a = na*10^-sa, b = nb*10^-sb with |na| <= 150, 1 <= |nb| <= 60, scales 0..2 (325 080 pairs x 10 remainder calls)".into());
             }
         }
         "zero" => {
